@@ -31,8 +31,9 @@ def norm(cfg):
     out['pools'] = dict(cfg.get('pools') or {})
     sc = []
     for c in cfg.get('script') or []:
-        nc = dict(t=0, prio=20, call='noise', dev=0, arg=0, res='', between=False)
+        nc = dict(t=0, prio=20, call='noise', dev=0, arg=0, res='', between=False, ups=[])
         nc.update(c)
+        nc['ups'] = list(nc['ups'])
         sc.append(nc)
     sc.sort(key=lambda c: (c['t'], -c['prio']))
     out['script'] = sc
@@ -247,7 +248,7 @@ def gen_targeted(rng, count=60):
     for i in range(count):
         kind = i % 8
         if i % 16 == 9:
-            kind = 5
+            kind = 5 if i % 32 == 9 else 8
         H = rng.choice([24, 32])
         if kind == 0:        # failure during a maintenance shutdown, part in process or not
             c = rng.choice([4, 6, 8, 10])
@@ -346,6 +347,17 @@ def gen_targeted(rng, count=60):
                 script.append(dict(t=t1 + 1, call='fail', dev=2, arg=rng.choice([0, 1])))
             cfg = dict(devs=devs, script=script, horizon=H + 8, maintcap=rng.choice([1, 2, -1]))
             fam = 'workorders'
+        elif kind == 8:   # connections added or moved while the simulation runs
+            devs = [src(rng.choice([1, 2]), rng.choice([3, 5, -1]), pval=1),
+                    dev(rng.choice(['handler', 'processor']), [1], cyc=rng.choice([1, 2])),
+                    dev(rng.choice(['handler', 'buffer']), [], cyc=rng.choice([1, 3]), cap=2),
+                    dev('sink', [], cyc=0), dev('sink', [3], cyc=rng.choice([0, 2]))]
+            t1 = rng.choice([3, 5, 7])
+            script = [dict(t=t1, call='rewire', dev=4, ups=[2]),                 # the blocked machine gets a sink
+                      dict(t=t1 + rng.choice([2, 4]), call='rewire', dev=3, ups=[1]),   # a second branch appears
+                      dict(t=t1 + rng.choice([8, 10]), call='rewire', dev=4, ups=rng.choice([[2, 3], [3], [3, 2]]))]
+            cfg = dict(devs=devs, script=script, horizon=H + 8)
+            fam = 'rewire'
         else:                # a blocked machine that goes down with a finished part while downstream frees up
             devs = [src(1, rng.choice([3, 5, -1]), pval=1), dev('processor', [1], cyc=rng.choice([1, 2])),
                     dev('processor', [2], cyc=rng.choice([6, 8, 10])), dev('sink', [3], cyc=0)]
